@@ -1,27 +1,45 @@
 #!/bin/bash
 # usage: seed-batch.sh <root dir> : for every <root>/<Cxx>-demo/<k>/ with patch.diff + spec.txt:
-#  confirms the seed in a fresh worktree and runs the property's check (plus C13 when spec says race); prints one summary line each.
+#  phase 1 (parallel, each in its own fresh scratch worktree): confirms the seed - build + repository tests with
+#          the change, demonstration with and without the change;
+#  phase 2 (serial, patches /repo and restores it): runs the property's check (plus C13 when spec says race).
+# prints one summary line per seed.  Never run another check while phase 2 is running.
 root=$1
 export GOFLAGS=-mod=mod GOPROXY=off GOSUMDB=off GOTOOLCHAIN=local
-for d in $root/C*-demo/[0-9]; do
-  [ -f $d/patch.diff ] && [ -f $d/spec.txt ] || { echo "$d: incomplete"; continue; }
+confirm() {
+  d=$1
   id=$(basename $(dirname $d) | cut -d- -f1); k=$(basename $d)
   read pkg tf rx race < $d/spec.txt
-  wt=/tmp/confirm-$$; git -C /repo worktree add -q --detach $wt HEAD
+  wt=/tmp/confirm-$id-$k-$$; git -C /repo worktree add -q --detach $wt HEAD
   cd $wt
-  if ! git apply $d/patch.diff 2>/dev/null; then echo "$id/$k: PATCH-DOES-NOT-APPLY"; cd /; git -C /repo worktree remove --force $wt; continue; fi
+  if ! git apply $d/patch.diff 2>/dev/null; then echo "PATCH-DOES-NOT-APPLY" > $d/.confirm; cd /; git -C /repo worktree remove --force $wt; return; fi
   rf=""; [ "$race" = race ] && rf="-race"
   bad=$( (go build ./... 2>&1; go test -vet=off -count=1 ./... 2>&1) | grep -v "no test files" | grep -cv "^ok")
+  if [ "$bad" != 0 ]; then # timing-dependent repository tests flake under load: once more
+    bad=$( (go test -vet=off -count=1 ./... 2>&1) | grep -v "no test files" | grep -cv "^ok")
+  fi
   cp $d/$tf $pkg/zz_seed_demo_test.go
   with=$(go test $rf -vet=off -count=1 -run "$rx" ./$pkg/ 2>&1 | grep -cE "^(--- FAIL|FAIL)")
   git apply -R $d/patch.diff
   without=$(go test $rf -vet=off -count=1 -run "$rx" ./$pkg/ 2>&1 | grep -cE "^(--- FAIL|FAIL)")
   cd /; git -C /repo worktree remove --force $wt
-  props="$id"; [ "$race" = race ] && props="$id C13"
+  echo "repo-tests-nonok=$bad demo-fails-with=$with demo-fails-without=$without" > $d/.confirm
+}
+export -f confirm
+ls -d $root/C*-demo/[0-9] | while read d; do
+  [ -f $d/patch.diff ] && [ -f $d/spec.txt ] && echo $d
+done | xargs -P 5 -I{} bash -c 'confirm {}'
+for d in $root/C*-demo/[0-9]; do
+  [ -f $d/patch.diff ] && [ -f $d/spec.txt ] || { echo "$d: incomplete"; continue; }
+  id=$(basename $(dirname $d) | cut -d- -f1); k=$(basename $d)
+  read pkg tf rx race < $d/spec.txt
+  c=$(cat $d/.confirm 2>/dev/null)
+  if [ "$c" = PATCH-DOES-NOT-APPLY ]; then echo "$id/$k: PATCH-DOES-NOT-APPLY"; continue; fi
+  props="$id"; [ "$race" = race ] && [ "$id" != C13 ] && props="$id C13"
   res=""
   for p in $props; do
-    out=$(/verif/tools/seed-test.sh $d/patch.diff $p 2>&1 | grep -E "^violation" | sed -E 's/violation: scenario=([^ ]*) oracle=([^ ]*) .*/\1:\2/' | head -3 | tr '\n' ' ')
+    out=$(SKIP_REPO_TESTS=1 /verif/tools/seed-test.sh $d/patch.diff $p 2>&1 | grep -E "^violation" | sed -E 's/violation: scenario=([^ ]*) oracle=([^ ]*) .*/\1:\2/' | head -3 | tr '\n' ' ')
     res="$res [$p: ${out:-MISSED}]"
   done
-  echo "$id/$k: repo-tests-nonok=$bad demo-fails-with=$with demo-fails-without=$without $res"
+  echo "$id/$k: $c $res"
 done
